@@ -39,6 +39,10 @@ def explore(body, start_bb, root_is, mark_pred, init_constraints=None, max_paths
                         nv[l_] = nv[src_]
                     else:
                         nv.pop(l_, None)
+                    if src_ is not None:
+                        nv[("a", l_)] = nv.get(("a", src_), src_)
+                    else:
+                        nv.pop(("a", l_), None)
         tk_ = body.blocks[bb]["term"]
         if tk_["k"] == "call" and not tk_["dst"]["proj"]:
             if nv is None:
@@ -88,6 +92,27 @@ def explore(body, start_bb, root_is, mark_pred, init_constraints=None, max_paths
             pl_ = on_.get("copy") or on_.get("move")
             if pl_ is not None and not pl_["proj"] and pl_["l"] in vals:
                 known = vals[pl_["l"]]
+        if known is None and bb in body.switches and key is None and not (si is not None and switch_hook is not None and False):
+            # remember the outcome of a test on a plain boolean local for later tests of the same local
+            on_ = body.switches[bb]["on"]
+            pl_ = on_.get("copy") or on_.get("move")
+            if pl_ is not None and not pl_["proj"] and pl_["ty"] == "bool":
+                root_ = vals.get(("a", pl_["l"]), pl_["l"])
+                arms_ = body.switches[bb]["arms"]
+                done_ = False
+                if len(arms_) == 1:
+                    v0, b0 = arms_[0]
+                    ow_ = body.switches[bb]["otherwise"]
+                    for (val_, tgt_) in ((v0, b0), (1 - v0, ow_)):
+                        if tgt_ in path:
+                            continue
+                        v2 = dict(vals)
+                        v2[root_] = val_
+                        v2[pl_["l"]] = val_
+                        stack.append((tgt_, marked, cons, path + [tgt_], v2))
+                    done_ = True
+                if done_:
+                    continue
         if known is not None:
             tgt = None
             for v_, b_ in body.switches[bb]["arms"]:
